@@ -133,6 +133,7 @@ func checkC01(c *Ctx) {
 	checkC01E2E(c)
 	c01SameRemote(c)
 	c01EventLeak(c)
+	c01ReconnectDuringCallback(c)
 	c03VerifyInterleaved(c) // another connection's request in the middle of a genuine finish (shared handler state)
 	c03Revocation(c)        // a removed controller must not be verified again (stale lookups)
 
@@ -680,5 +681,46 @@ func c01EventLeak(c *Ctx) {
 			}
 			c.Count(id, true, "stream:event-leak", fmt.Sprintf("event-leak:strangers=%d", nStr))
 		}()
+	}
+}
+
+// c01ReconnectDuringCallback: a verified controller writes a value and subscribes in one request (`value` + `ev`); the
+// application's callback for the write takes its time; meanwhile the controller's connection is reset and a peer that
+// never verified connects from the same address and port. When the request is through, nothing of it may have landed on
+// the stranger's session: it is not subscribed (an event is a characteristic value in plaintext), not verified.
+func c01ReconnectDuringCallback(c *Ctx) {
+	for i := 0; i < c.Pick(3, 30); i++ {
+		id := c.CaseID("reconnect-during-callback", i)
+		if c.Skip(id) {
+			continue
+		}
+		sw := accessory.NewSwitch(accessory.Info{Name: "Slow"})
+		f, addr, err := verifiedFixture(c, []*accessory.Accessory{sw.Accessory})
+		if err != nil {
+			c.Violate("C01 fixture cannot be built", id, nil, "fixture", err.Error())
+			continue
+		}
+		var stranger hap.Session
+		sw.Switch.On.OnValueRemoteUpdate(func(bool) {
+			// the connection goes away under the request that is being served; a new one takes its address
+			f.CloseConn(addr)
+			stranger = f.Session(addr)
+		})
+		how := []string{`"value":true,"ev":true`, `"ev":true,"value":true`, `"value":1,"ev":true`}[i%3]
+		body := fmt.Sprintf(`{"characteristics":[{"aid":%d,"iid":%d,%s}]}`, sw.Accessory.ID, sw.Switch.On.ID, how)
+		st, _, _, pm := f.Do(addr, "PUT", "/characteristics", "application/hap+json", []byte(body))
+		in := map[string]interface{}{"request_of_the_verified_controller": "PUT /characteristics " + body,
+			"during_the_application_callback": "the connection is closed; an unverified peer connects from the same address and port"}
+		switch {
+		case stranger == nil:
+			c.Violate("remote write of a verified controller does not reach the application", id, in, "callback", fmt.Sprint(st, pm))
+		case stranger.IsSubscribedTo(sw.Switch.On.Characteristic):
+			c.Violate("a connection that never verified is subscribed to events by the request of another connection (it will receive characteristic values in plaintext)", id, in,
+				"not subscribed", "subscribed")
+		case stranger.Encrypter() != nil || stranger.Decrypter() != nil:
+			c.Violate("connection became verified without a valid pair-verify finish", id, in, "no cryptographer", "cryptographer present")
+		}
+		c.Count(id, true, "stream:reconnect-during-callback")
+		f.Close()
 	}
 }
